@@ -450,6 +450,10 @@ func (w *world) opGov(op kernel.Op) {
 		chains, addrs := []string{w.tssName()}, []string{w.tss.Acc.String()}
 		if op.Arg(2)%2 == 0 {
 			chains = []string{"some-other-chain"}
+			if op.Arg(2)%4 == 0 {
+				// ... or for a chain whose name differs from the TSS chain's only in letter case (names are case-sensitive)
+				chains = []string{strings.ToUpper(w.tssName())}
+			}
 		}
 		content = clienttypes.NewRegisterRelayerProposal("reg", "tss relayer", w.tss.Acc.String(), chains, addrs)
 		what = "tssreg:" + chains[0]
